@@ -8,7 +8,8 @@ import rcommon
 META = {
     "property_id": "C04",
     "technique": "Coq invariant proofs over an interleaving model of runner/runner.go + trace acceptance of hook logs of the "
-                 "real runner by the model (free-running jittered schedules and forced pile-up schedules) + black-box call counting",
+                 "real runner by the model (free-running jittered schedules and forced pile-up schedules) + black-box call counting "
+                 "+ project-level direct oracles on generated real projects (labels under every accepted spelling; generated sources)",
     "level_text": "Theorems (Coq, all dependency graphs incl. duplicates/failing/unknown targets, all schedules, all limits): a "
                   "goroutine is created only by the atomic Idle->Running transition and at most once per label; LoadTarget, "
                   "Evaluate and the body run at most once per label; a final status never changes; every non-cyclic result handed "
@@ -20,7 +21,14 @@ META = {
                   "identical to the dependency's own error value, Run's error identical to the root's. The atomicity of start()'s "
                   "test-and-set (one model step) is exercised under forced contention: pile-up builds in which all requesters of a "
                   "label are parked at the first statement of start() and released together (all limits, incl. 1), and rounds of "
-                  "k goroutines leaving a spin barrier into start() of one idle record.",
+                  "k goroutines leaving a spin barrier into start() of one idle record. Project level: theorems one_goroutine_per_target / "
+                  "once_per_target (per-label at-most-once is per-TARGET at-most-once as far as the label strings that reach the "
+                  "runner name distinct targets; two_spellings_run_twice: not otherwise) and before_request_deps_unfinished (the "
+                  "guarantee covers only what Evaluate does after its request); direct oracles on real builds of generated projects: "
+                  "goroutines / LoadTarget calls / events / body runs per target object and per source file with one target "
+                  "requested under every pair of accepted label and path spellings; a generated source file's stamp = hash of the "
+                  "file as its generator left it, bodies see every dependency finished, events in dependency order, recorded "
+                  "dependency stamps = the dependencies' own, Run's error = the requested target's.",
     "level_note": "Trusted: Coq kernel; the hook dispatcher; sync.Mutex/sync.Cond/sync.Map semantics (getTarget's LoadOrStore is "
                   "modelled as label identity; a broken LoadOrStore shows up as two goroutines for one label in the log). "
                   "The model covers dawn's usage (one EvaluateTargets call per target, target.go) — not arbitrary Engine clients. "
@@ -157,8 +165,136 @@ def run_pileup(ctx):
             "direct rounds=%s failures=%s" % (len(runs), nev, len(rejected), nrel, multi, fallbacks, len(oracles),
                                               direct.get("rounds"), direct.get("failures")))
 
+# project-level families (labels as written, generated sources): (random projects) per tier; run on all CPUs and pinned to one
+PROJECT = {"quick": 40, "thorough": 600}
+PROJECT_FILE = os.path.join(rcommon.HARNESS, "overlay/root/zz_verif_c04_project_test.go")
+PROJECT_OWN = ("target_once", "body_saw_finished_deps", "source_hashed_after_generator", "events_after_deps",
+               "handed_actual_outcome", "build_result_is_roots", "terminates")
+
+
+def run_project(ctx, res):
+    """Real projects (dawn.Load / Project.Run, bodies = a Go builtin of the harness): one target requested under every accepted
+    spelling of its label / path; generated source files and their generators.  Once on all CPUs, once pinned to one CPU (the
+    runner's limit is runtime.NumCPU(): limit 1)."""
+    nrand = PROJECT["quick" if ctx.quick() else "thorough"]
+    for name, extra, fixed, nr in (("all-cpus", None, "1", nrand), ("limit-1", ["-exec", "taskset -c 0"], "1", max(1, nrand // 4))):
+        out = os.path.join(ctx.tmp, "c04_project_%s.jsonl" % name)
+        seed = ctx.seed * 100 + 44 + (1 if extra else 0)
+        try:
+            rc, o = ctx.go_overlay_test("", {"zz_verif_c04_project_test.go": PROJECT_FILE}, "^TestVerifC04Project$",
+                                        {"VERIF_OUT": out, "VERIF_SEED": str(seed), "VERIF_C04P_RANDOM": str(nr),
+                                         "VERIF_C04P_FIXED": fixed}, timeout=900, extra=extra)
+        except Exception as e:  # noqa
+            rc, o = -1, repr(e)
+        projects, builds, oracles, ended = {}, {}, [], False
+        if os.path.exists(out):
+            for line in open(out):
+                line = line.rstrip("\n")
+                try:
+                    if line.startswith("{"):
+                        b = json.loads(line)
+                        builds[b["build"]] = b
+                    elif line.startswith("PROJECT\t"):
+                        pj = json.loads(line.split("\t", 1)[1])
+                        projects[pj["index"]] = pj
+                    elif line.startswith("ORACLE\t"):
+                        f = line.split("\t")
+                        oracles.append((f[1], int(f[2]), f[3]))
+                    elif line.startswith("END\t"):
+                        ended = True
+                except ValueError:
+                    pass
+        res[name] = {"rc": rc, "out": o, "projects": projects, "builds": builds, "oracles": oracles, "ended": ended, "seed": seed,
+                     "nrand": nr}
+
+
+def report_project(ctx, res):
+    tot_builds, tot_projects, fams, kinds, shared, gens = 0, 0, {}, {}, 0, 0
+    for name, r in sorted(res.items()):
+        how = ("go test -tags verif -overlay (harness/overlay/root/zz_verif_c04_project_test.go) -run ^TestVerifC04Project$ . "
+               "with VERIF_SEED=%d VERIF_C04P_RANDOM=%d%s; or by hand: write the files under `project`, apply `steps` in order, "
+               "every build = dawn.Load + Project.Run(requested) from a fresh process/Load with a body that records what it sees"
+               % (r["seed"], r["nrand"], " under taskset -c 0 (runner limit 1)" if name == "limit-1" else ""))
+        if not r["ended"] and not r["oracles"]:
+            ctx.violation("the project-level C04 harness failed to build or run against /repo (%s, exit %s)" % (name, r["rc"]),
+                          {"theorem_or_correspondence": "C04 project-level harness", "output": r["out"][-3000:]}, found_input=False)
+            continue
+        tot_builds += len(r["builds"])
+        tot_projects += len(r["projects"])
+        for pj in r["projects"].values():
+            sp = pj["spec"]
+            fams[sp["family"]] = fams.get(sp["family"], 0) + 1
+            gens += sum(1 for f in sp.get("files") or [] if f["generator"] >= 0)
+            refs = {}
+            for t in sp["targets"]:
+                for d in t.get("deps") or []:
+                    kinds["label:" + d["kind"]] = kinds.get("label:" + d["kind"], 0) + 1
+                    refs.setdefault((d["t"], d["def"]), set()).add(d["spell"])
+                for s in (t.get("srcs") or []) + (t.get("gens") or []):
+                    kinds["path:" + s["kind"]] = kinds.get("path:" + s["kind"], 0) + 1
+                    refs.setdefault(("file", s["f"]), set()).add((t["pkg"], s["spell"]))
+            shared += sum(1 for v in refs.values() if len(v) >= 2)
+        own = [x for x in r["oracles"] if x[0] in PROJECT_OWN]
+        other = [x for x in r["oracles"] if x[0] not in PROJECT_OWN]
+        seen, nrep = set(), 0
+        for oname, bid, detail in own:
+            b = r["builds"].get(bid, {})
+            pj = r["projects"].get(b.get("project"), {})
+            fam = (pj.get("spec") or {}).get("family")
+            if (oname, fam) in seen or nrep >= 4:
+                continue
+            seen.add((oname, fam))
+            nrep += 1
+            sp = pj.get("spec") or {}
+            files = dict(("BUILD.dawn" if k == "//" else k[2:] + "/BUILD.dawn", v) for k, v in (pj.get("build_files") or {}).items())
+            files["dawn.toml"] = ""
+            for f in sp.get("files") or []:
+                if f.get("has_initial"):
+                    files[f["path"]] = f.get("initial", "")
+            ctx.violation("implementation violates C04 oracle %s (project level, %s): %s" % (oname, name, detail),
+                          {"oracle": oname, "detail": detail, "family": fam, "project_name": sp.get("name"), "project": files,
+                           "steps": (sp.get("steps") or [])[:b.get("step", 0) + 1], "failing_step": b.get("step"),
+                           "requested": b.get("requested"), "Run_error": b.get("run_error"),
+                           "bodies": "every body is probe(label): checks what it can see, sleeps delay_us, fails if `fail`, then writes "
+                                     "'<label> execution <n>' into each generated file",
+                           "targets": sp.get("targets"), "labels_given_to_the_runner": b.get("runner_labels"),
+                           "event_order": b.get("events"), "failures_of_this_oracle": len([x for x in own if x[0] == oname]),
+                           "how": how})
+        if other and not own:
+            oname, bid, detail = other[0]
+            b = r["builds"].get(bid, {})
+            ctx.violation("the project-level C04 harness's own sanity check failed (%s, %s): %s" % (oname, name, detail),
+                          {"theorem_or_correspondence": "C04 project-level harness (generated project rejected)", "detail": detail,
+                           "project": (r["projects"].get(b.get("project")) or {}).get("build_files"), "how": how}, found_input=False)
+        r["own"] = len(own)
+    ctx.coverage["evaluations"] += tot_builds
+    ctx.coverage["distinct_nontrivial"] += shared
+    ctx.coverage["rule"] += (
+        " Project level, labels and generated sources (C04 only): %d projects / %d builds through dawn.Load + Project.Run with a Go "
+        "builtin as every body (all CPUs, and pinned to one CPU = limit 1). (a) one target in //, //lib, //lib/sub requested by "
+        "dependents under every pair of accepted spellings of its label (canonical, package-relative, trailing / inner / leading "
+        "empty path elements, relative with empty elements, the target object; also all spellings at once on an ok / failing / "
+        "default / slow / generating target), one source or generated file under every spelling of its path (plain, ./, x/../, "
+        "/abs, ../, //): goroutines, LoadTarget calls, events and body runs counted per target OBJECT and per file; (b) generator "
+        "-> generated source -> consumer shapes x file initially absent / stale x slow / fast generator x histories (build, build, "
+        "edit or delete, build, build): the source's stamp must be the hash of the file as its generator left it, a body must see "
+        "every dependency finished and every source as its generator left it, events in dependency order, recorded dependency "
+        "stamps = the dependencies' own, Run's error = the requested target's; (c) seeded random projects mixing both. %d "
+        "targets/files requested under >= 2 spellings (counted into distinct), %d generated files."
+        % (tot_projects, tot_builds, shared, gens))
+    ctx.coverage["correspondence"]["project_labels_and_generated_sources"] = {
+        "projects": tot_projects, "builds": tot_builds, "by_family": fams, "spelling_classes_used": dict(sorted(kinds.items())),
+        "entities_requested_under_2_or_more_spellings": shared, "generated_files": gens,
+        "oracle_failures": sum(r.get("own", 0) for r in res.values())}
+    ctx.log("project-level labels/generated sources: projects=%d builds=%d shared-under-2-spellings=%d generated-files=%d "
+            "oracle_failures=%d" % (tot_projects, tot_builds, shared, gens, sum(r.get("own", 0) for r in res.values())))
+
 
 def run(ctx):
+    import threading
+    pres = {}
+    th = threading.Thread(target=run_project, args=(ctx, pres))
+    th.start()
     rcommon.run_check(ctx, "C04", "Runner/Props_C04.v", SIZES,
                       "C04 oracles: LoadTarget/Evaluate/body call counts <= 1 per label; a dependent continues only after its "
                       "dependencies finished; the result handed over is the dependency's own error value; Run's result is the root's.")
@@ -168,3 +304,6 @@ def run(ctx):
     # projects (incl. one target requested under two spellings), body executions counted from the execution log
     from checks.engine_common import run_engine_oracles
     run_engine_oracles(ctx, "C04", ["C04 "], histories=16 if ctx.quick() else 120, steps=10 if ctx.quick() else 16)
+    # at-most-once / after-its-dependencies where labels are written and where a target's own work is hashing a generated file
+    th.join()
+    report_project(ctx, pres)
